@@ -396,7 +396,11 @@ func ruleAbortBeforeWrite(c *Ctx, r *Rep) {
 			if st.this.owner == st.next.owner && entry != nil && entry.Dominates(st.next.call.Block()) {
 				ok, how = false, "the next step is on the error branch"
 			}
-			if !instrDominates(st.this.site, st.next.site) {
+			dominated := instrDominates(st.this.site, st.next.site)
+			if st.this.site == st.next.site && st.this.owner == st.next.owner {
+				dominated = instrDominates(st.this.call, st.next.call) // both steps inside one run function
+			}
+			if !dominated {
 				ok, how = false, "the next step is not dominated by this one"
 			}
 			if st.this.owner != host {
@@ -423,10 +427,32 @@ func ruleGuardConsent(c *Ctx, r *Rep) {
 		return
 	}
 	pv := c.newProv()
-	host, _, planStep, bulkStep := c.cliSteps()
+	host, planStep, bulkStep := c.cliPlanHost()
 	if bulkStep == nil || planStep == nil {
 		r.Undecided("shape:cli-sign", c.FnPos(cli), "BulkUpdate / PlanBulkUpdate call not found")
 		return
+	}
+	// the sequencing function may be a run function below the command's closure: what it is handed (the reader the
+	// answer is read from) is what its single caller passes
+	if host != cli {
+		var sites []ssa.CallInstruction
+		for _, f := range c.Funcs {
+			for _, ci := range callsIn(f) {
+				if ci.Common().StaticCallee() == host {
+					sites = append(sites, ci)
+				}
+			}
+		}
+		if len(sites) == 1 {
+			bind := map[*ssa.Parameter][]string{}
+			for j, prm := range host.Params {
+				if j < len(sites[0].Common().Args) {
+					bind[prm] = uniq(pv.origins(sites[0].Common().Args[j], 0))
+				}
+			}
+			pv.binds = append(pv.binds, bind)
+			defer func() { pv.binds = pv.binds[:len(pv.binds)-1] }()
+		}
 	}
 	// from here on "cli" is the function that sequences the steps, "bulk" the call in it that leads to generation
 	cli = host
@@ -1212,7 +1238,7 @@ func ruleEffectDet(c *Ctx, r *Rep) {
 	reach := c.Graph().Reach(h)
 	var bad []string
 	for f := range reach {
-		if strings.HasSuffix(f.Pkg.Pkg.Path(), "/logging") {
+		if strings.HasSuffix(fnPkgPath(f), "/logging") {
 			continue // log output does not feed the hash
 		}
 		for _, b := range f.Blocks {
@@ -1503,6 +1529,78 @@ func (c *Ctx) cliSteps() (host *ssa.Function, open, plan, bulk *cliStep) {
 		return cur, found["open"], found["plan"], found["bulk"]
 	}
 	return cur, nil, nil, nil
+}
+
+// cliPlanHost: the function that sequences planning and generation. It is the host of cliSteps unless that reaches
+// both through one call (the command's Run function opens the database and hands the rest to a run function): then the
+// callee, as long as both steps are still reached through one call of it.
+func (c *Ctx) cliPlanHost() (host *ssa.Function, plan, bulk *cliStep) {
+	host, _, plan, bulk = c.cliSteps()
+	entries, _ := c.entryPoints()
+	kind := func(ci ssa.CallInstruction) string {
+		cc := ci.Common()
+		switch {
+		case cc.StaticCallee() != nil && cc.StaticCallee() == entries["db.PlanBulkUpdate"]:
+			return "plan"
+		case cc.StaticCallee() != nil && cc.StaticCallee() == entries["db.BulkUpdate"]:
+			return "bulk"
+		}
+		return ""
+	}
+	var within func(f *ssa.Function, d int, out map[string]*cliStep)
+	within = func(f *ssa.Function, d int, out map[string]*cliStep) {
+		if f == nil || d > 3 || !c.InModule(f) || f.Blocks == nil {
+			return
+		}
+		for _, ci := range callsIn(f) {
+			call, ok := ci.(*ssa.Call)
+			if !ok {
+				continue
+			}
+			if k := kind(ci); k != "" {
+				if out[k] == nil {
+					out[k] = &cliStep{nil, call, f}
+				}
+				continue
+			}
+			within(ci.Common().StaticCallee(), d+1, out)
+		}
+	}
+	for depth := 0; depth < 3; depth++ {
+		if host == nil || plan == nil || bulk == nil || plan.site != bulk.site || plan.site == plan.call {
+			return
+		}
+		cur := plan.site.Common().StaticCallee()
+		if cur == nil || cur.Blocks == nil {
+			return
+		}
+		found := map[string]*cliStep{}
+		for _, ci := range callsIn(cur) {
+			call, ok := ci.(*ssa.Call)
+			if !ok {
+				continue
+			}
+			if k := kind(ci); k != "" {
+				if found[k] == nil {
+					found[k] = &cliStep{call, call, cur}
+				}
+				continue
+			}
+			sub := map[string]*cliStep{}
+			within(ci.Common().StaticCallee(), 1, sub)
+			for k, st := range sub {
+				if found[k] == nil {
+					st.site = call
+					found[k] = st
+				}
+			}
+		}
+		if found["plan"] == nil || found["bulk"] == nil {
+			return
+		}
+		host, plan, bulk = cur, found["plan"], found["bulk"]
+	}
+	return
 }
 
 // inFrame evaluates f with the provenance bindings of st's owner as reached from host (identity when the step sits in host).
